@@ -11,6 +11,7 @@ import (
 
 	"github.com/anoideaopen/foundation/core"
 	fpb "github.com/anoideaopen/foundation/proto"
+	"github.com/golang/protobuf/proto" //nolint:staticcheck
 	"github.com/hyperledger/fabric-chaincode-go/shim"
 )
 
@@ -35,12 +36,14 @@ var c15Steps = []struct {
 }{
 	{"put,qk,v", 1}, {"del,qk", 2}, {"vp,qk", 3}, {"pput,qk,v", 4}, {"pdel,qk", 5}, {"ppurge,qk", 6}, {"pvp,qk", 7},
 	{"event,qe,v", 8}, {"get,qk", 20}, {"put,d1,", 1}, {"get,d1", 20},
+	{"acct,5", 8}, // an accounting record, as a balance move reports one: an output of the invocation like an event
 }
 
 // the same steps with their data, as terms of the model's second part (keys: qk -> 1, d1 -> 2)
 var c15QopTerm = map[string]string{
 	"put,qk,v": "QPut 1 [118]", "del,qk": "QDel 1", "vp,qk": "QOtherWrite 3", "pput,qk,v": "QOtherWrite 4", "pdel,qk": "QOtherWrite 5",
 	"ppurge,qk": "QOtherWrite 6", "pvp,qk": "QOtherWrite 7", "event,qe,v": "QEvent 1 [118]", "get,qk": "QGet 1", "put,d1,": "QPut 2 []", "get,d1": "QGet 2",
+	"acct,5": "QOtherWrite 8",
 }
 
 // effectsOf lists the mutating operations that reached the peer in one simulated transaction.
@@ -74,6 +77,18 @@ func effectsOf(res *TxResult, ownEvent string) []int {
 	}
 	if res.Event != nil && res.Event.GetEventName() != ownEvent {
 		eff = append(eff, 8)
+	}
+	if res.Event != nil && res.Event.GetEventName() == ownEvent && ownEvent == core.ExecuteTasksEvent {
+		// the task list's own event: the accounting records it lists for its tasks (none of the bodies used next to a
+		// query reports any)
+		var be fpb.BatchEvent
+		if proto.Unmarshal(res.Event.GetPayload(), &be) == nil {
+			for _, e := range be.GetEvents() {
+				if len(e.GetAccounting()) > 0 {
+					eff = append(eff, 8)
+				}
+			}
+		}
 	}
 	sort.Ints(eff)
 	return eff
